@@ -654,15 +654,15 @@ def doCompact (c : Cfg) (s : BState) (rev : Nat) (mask : Nat → DelOutcome) : S
   (if pan then .panic else .ok rev, s)
 
 
-/-- The delete calls (`true` = compare-and-delete) a compaction makes, in order — same traversal as
-`doCompact`/`compactRange`, collecting `CompState.trace` (used by the driver's `dellog`). -/
-def compactTrace (c : Cfg) (s : BState) (rev : Nat) (mask : Nat → DelOutcome) : List (Bool × Bytes) :=
+/-- The engine calls (plain delete, compare-and-delete, expiry batch) a compaction makes, in order — same traversal
+as `doCompact`/`compactRange`, collecting `CompState.trace` (used by the driver's `dellog`). -/
+def compactTrace (c : Cfg) (s : BState) (rev : Nat) (mask : Nat → DelOutcome) : List DelCall :=
   let cur := s.committed
   let rev := if rev == 0 || rev > cur then cur else rev
   let rev := match s.retryQ.head? with
     | some w => min (w.rev - 1) rev
     | none => rev
-  let step (acc : BState × Nat × List (Bool × Bytes)) (b : Bytes × Bytes) : BState × Nat × List (Bool × Bytes) :=
+  let step (acc : BState × Nat × List DelCall) (b : Bytes × Bytes) : BState × Nat × List DelCall :=
     let s := acc.1
     let marks := s.marks ++ [(rev, s.now)]
     let curF := floorOf c s.store
